@@ -41,11 +41,13 @@ deriving DecidableEq, Repr, Inhabited
 
 /-- a well-formed runtime message as the read loop sees it -/
 inductive Msg where
-  /-- work-done for run `r`; `x = none`: the data field does not decode (error result) -/
+  /-- work-done for run `r`; `x = none`: the data field does not decode with the client's strict
+      decoder - garbled, or the payload of another message type (unknown fields) - : error result -/
   | workDone (r : Run) (x : Option Nat)
-  /-- signal emitted by the step; `good = false`: data does not decode (dropped) -/
+  /-- signal emitted by the step; `good = false`: data does not decode strictly (logged, dropped) -/
   | signal (r : Run) (good : Bool)
-  /-- error message with its two flags (of data that fails to decode, whatever did decode is used) -/
+  /-- error message with its two flags (a strict-decoding failure is logged; the flags are those of
+      the struct as far as it was filled: all false for a payload of another type) -/
   | error (r : Run) (stepFatal serverFatal : Bool)
   /-- any other message ID -/
   | unknown (r : Run)
